@@ -32,7 +32,8 @@ KNOWN = {
     'C14': ["after the newest log file was deleted externally, a restarted writer given the same timestamp re-uses its name; a reader restarted from its head file applies the saved byte offset to the new file"],
     'C09': ["a Frame built on a read-only numpy VIEW of a buffer that is still writable through its base keeps a stale cached JPEG",
             "a frame set with twenty or more topics overflows the PUB socket's queue (ZMQ_PUB_HWM) and is never delivered"],
-    'C08': ["a filter waiting for its OUTPUTS (the send wait of loop_once, e.g. an output nobody takes) never hears the exit announcement of its source",
+    'C08': ["a publisher's exit announcement and CLOSE travel through the same bounded PUB queue as its frames: a '?' consumer that is several hundred frames behind loses them and never ends",
+            "a filter waiting for its OUTPUTS (the send wait of loop_once, e.g. an output nobody takes) never hears the exit announcement of its source",
             "a join never hears the exit announcement of a source whose frame set is already complete while it waits for its other sources (the complete source's socket is out of the poller)"],
     'C18': ["a run emits several terminal events: ABORT from exit(), from fini() and from each handler of run(), plus COMPLETE from the heartbeat thread when it is stopped; clean runs end with ABORT events as well",
             "stop_lineage_heart_beat() only raises a flag and does not wait for the heartbeat thread, so a RUNNING event that was already past the loop test can follow the terminal event"],
